@@ -64,6 +64,19 @@ def main():
                 nties += 1
         elif "err" in res and op in ("add", "sub", "eq", "lt", "le", "gt") and vl[1] == vr[1]:
             c.violation(f"raises:{op}:{res['err']}", f"{op} of convertible quantities raised {res['err']}", repl)
+    # operands written with prefixes of one or two bases (SI and IEC mixed): two-step sequences and powers of compound
+    # units keep their physical value (relations evaluated on the implementation; mixed bases at 1e-9)
+    prefixes = sorted(n for n, p in O.exp["prefix_by_name"].items() if not isinstance(p, dict))
+    REL_UNITS = [[[None, "meter", 1]], [[None, "second", 1]], [[None, "gram", 1]], [[None, "bit", 1]], [[None, "newton", 1]], [[None, "meter", 2]]]
+    rel = []
+    for _ in range(160 if c.tier == "quick" else 2500):
+        rel.append({"p": rng.choice(prefixes), "q": rng.choice(prefixes), "u": rng.choice(REL_UNITS), "m": rng.choice(MAGS[:8]), "n": rng.choice([-3, -2, -1, 1, 2, 3])})
+    VALUE_RELS = ("compound-power", "ratio-then-multiply", "ratio-then-divide", "full-cancel-quantity", "full-cancel-keeps-prefix", "prefixed-quantity", "unprefixed", "divide-by-prefixed")
+    for case, rec in zip(rel, impl("prefixsem_worker.py", {"cases": rel})["results"]):
+        c.count(case, nontrivial=True)
+        for f in rec.get("fails", []):
+            if f in VALUE_RELS:
+                c.violation(f"prefix-rewrite:{f}", f"the value changes when the operands are written with prefixes {case['p']}, {case['q']}: relation {f} fails (unit {case['u']}, magnitude {case['m']}, n={case['n']})", {"case": case})
     convtbl = O.conv_pairs(recs)
     # comparisons at (near-)ties are excluded from the exact model comparison
     keep = []
